@@ -7,6 +7,7 @@ import (
 	"go/constant"
 	"go/token"
 	"go/types"
+	"math"
 	"math/big"
 	"regexp"
 	"sort"
@@ -1141,7 +1142,7 @@ func tailList(xs []string, n int) []string {
 // R03.9: the delta-T table is interpolated by the cubic its entries are the coefficients of.
 func r03_9(c *Ctx, r *Report) {
 	const rule = "R03.9"
-	r.rule(rule, "The delta-T table is evaluated as the cubic its records describe. DT_AT holds records (knot year, a, b, c, d); between two knots dtCalc returns — read as a polynomial with exact rational coefficients over the table entries and the quotient q = (y - knot) / (next knot - knot) (E11b: sums, differences, products, quotients by constants; anything else is an atom) — exactly a + 10·b·q + 100·c·q² + 1000·d·q³ with a, b, c, d the four entries after the knot in that order and the next knot five entries on: each power of q once, with the entry of its own degree. (R08.6 checks on the data that consecutive records join to within 15 s under this very formula; a cubic whose third power is built from the wrong factors bends every term instant before 2000 by minutes.) That the entries themselves are right is data.")
+	r.rule(rule, "The delta-T table is evaluated as the cubic its records describe. DT_AT holds records (knot year, a, b, c, d); between two knots dtCalc returns — followed by the evaluator for a year below the first knot, on each knot, three between each two and the last value below the next (dtCalc looks at the year only through comparisons with knots, so these stand for every year; a read outside the table on the way fails the walk), and, where the code lets it be read so, as a polynomial with exact rational coefficients over the table entries and the quotient q = (y - knot) / (next knot - knot) (E11b: sums, differences, products, quotients by constants; anything else is an atom) — exactly a + 10·b·q + 100·c·q² + 1000·d·q³ with a, b, c, d the four entries after the knot in that order and the next knot five entries on: each power of q once, with the entry of its own degree. (R08.6 checks on the data that consecutive records join to within 15 s under this very formula; a cubic whose third power is built from the wrong factors bends every term instant before 2000 by minutes.) That the entries themselves are right is data.")
 	fn := c.Fn(r, rule, "ShouXingUtil.dtCalc")
 	if fn == nil {
 		return
@@ -1251,8 +1252,65 @@ func r03_9(c *Ctx, r *Report) {
 		sort.Strings(bad)
 		r.check(len(bad) == 0, rule, "ShouXingUtil.dtCalc interpolates a + b·t + c·t² + d·t³ with t = 10·(y - knot)/(next knot - knot)", c.pos(ret.Pos()), fmt.Sprintf("returned polynomial: %s; deviations: %v", truncate(p.String(), 400), headList(dedupe(bad), 4)))
 	}
-	r.floor(rule, 1)
 	_ = n
+	// by evaluation: every record of the table, and every ordering of the year against the knots. dtCalc looks at the
+	// year only through comparisons with knots (and arithmetic on the record it picked), so a year below the first
+	// knot, on each knot, between each two, and beyond the last stands for every year
+	dtCalcTable(c, r, rule, fn)
+	r.floor(rule, 1)
+}
+
+// dtCalcTable follows dtCalc for years standing for every ordering against the knots of DT_AT and compares what it
+// returns inside the table with the cubic of the record (knot, a, b, c, d) the year falls in.
+func dtCalcTable(c *Ctx, r *Report, rule string, fn *ssa.Function) {
+	tv := c.tab(r, rule, "ShouXingUtil", "DT_AT")
+	if tv == nil || tv.Kind != "list" || len(tv.L) < 12 || len(tv.L)%5 != 2 || len(fn.Params) != 1 {
+		return
+	}
+	at := func(i int) float64 { return tv.L[i].F }
+	last := len(tv.L) - 2 // the closing knot (followed by its value)
+	var years []float64
+	years = append(years, at(0)-3000, at(0)-1, at(0))
+	for i := 0; i+5 <= last; i += 5 {
+		k0, k1 := at(i), at(i+5)
+		years = append(years, k0, k0+(k1-k0)*0.25, k0+(k1-k0)*0.5, k0+(k1-k0)*0.875, math.Nextafter(k1, k0))
+	}
+	var bad []string
+	n := 0
+	c.dtCalcRun = true
+	for _, y := range years {
+		if len(bad) >= 4 {
+			break
+		}
+		leaf := func(fr *evalFrame, v ssa.Value) (interface{}, bool) {
+			if p, ok := v.(*ssa.Parameter); ok && fr.parent == nil && p == fn.Params[0] {
+				return y, true
+			}
+			return nil, false
+		}
+		ev := &evaluator{leaf: leaf, inline: inlineLibrary, counted: 256}
+		res, outcome := ev.run(fn, nil, nil, nil, nil)
+		n++
+		// the record the year falls in: the first whose next knot is above it
+		i := 0
+		for i+5 < last && !(y < at(i+5)) {
+			i += 5
+		}
+		q := (y - at(i)) / (at(i+5) - at(i)) * 10
+		want := at(i+1) + at(i+2)*q + at(i+3)*q*q + at(i+4)*q*q*q
+		got, isF := float64(0), false
+		if outcome == "return" && len(res) == 1 {
+			got, isF = res[0].(float64)
+		}
+		switch {
+		case !isF:
+			bad = append(bad, fmt.Sprintf("year %v: not followed (%s %s)", y, outcome, ev.fail))
+		case math.Abs(got-want) > 1e-9*math.Max(1, math.Abs(want)):
+			bad = append(bad, fmt.Sprintf("year %v (record at knot %v): %v, stated a + b·q + c·q² + d·q³ = %v with q = 10·(y - knot)/(next knot - knot)", y, at(i), got, want))
+		}
+	}
+	c.dtCalcOK = len(bad) == 0 && n == len(years)
+	r.check(len(bad) == 0 && n == len(years), rule, "ShouXingUtil.dtCalc returns the cubic of the record the year falls in, for every ordering of the year against the knots", c.fnPos(fn), fmt.Sprintf("%d years (below the first knot, on each knot, three between each two and the last value below the next; no read outside the table on the way); deviations: %v", n, headList(bad, 3)))
 }
 
 func truncate(s string, n int) string {
